@@ -2995,3 +2995,219 @@ def _(ex, a):
 
 
 DROP_HOOKS['Hasher'] = lambda ex, v: None
+
+
+# ------------------------------------------------------------------ a batch of further std operations (seeded rounds keep using new ones)
+@prim('slice::get_unchecked', 'slice::get_unchecked_mut', 'Vec::get_unchecked', 'Vec::get_unchecked_mut')
+def _(ex, a):
+    base, off, n = _view(ex, a[0])
+    i = _cidx(a[1])
+    if i >= n:
+        # undefined behaviour in the real program: reported as abnormal termination of the path
+        raise RustPanic('UB: get_unchecked index out of bounds')
+    return elem_ref(base, off + i)
+
+
+@prim('Vec::drain', 'VecDeque::drain')
+def _(ex, a):
+    v = ex.deref(a[0])
+    s, e = _range_bounds(ex, a[1], len(v.f))
+    if s > e or e > len(v.f):
+        raise RustPanic('drain range out of bounds')
+    out = v.f[s:e]
+    del v.f[s:e]
+    return Agg('VecIntoIter', out)
+
+
+@prim('Vec::split_off')
+def _(ex, a):
+    v = ex.deref(a[0])
+    at = _cidx(a[1])
+    if at > len(v.f):
+        raise RustPanic('split_off: at > len')
+    tail = v.f[at:]
+    del v.f[at:]
+    return Agg('Vec', tail)
+
+
+@prim('Vec::extend_from_slice')
+def _(ex, a):
+    base, off, n = _view(ex, a[1])
+    src = ex.deref(base).f[off:off + n]
+    ex.deref(a[0]).f.extend(clone_value(ex, x) for x in src)
+    return UNIT()
+
+
+@prim('Vec::append')
+def _(ex, a):
+    src = ex.deref(a[1])
+    ex.deref(a[0]).f.extend(src.f)
+    src.f[:] = []
+    return UNIT()
+
+
+@prim('slice::split_first')
+def _(ex, a):
+    base, off, n = _view(ex, a[0])
+    if n == 0:
+        return NONE()
+    return Some(Agg('tuple', [elem_ref(base, off), Ref(Cell(Agg('SliceView', [base, off + 1, off + n])))]))
+
+
+@prim('slice::split_last')
+def _(ex, a):
+    base, off, n = _view(ex, a[0])
+    if n == 0:
+        return NONE()
+    return Some(Agg('tuple', [elem_ref(base, off + n - 1), Ref(Cell(Agg('SliceView', [base, off, off + n - 1])))]))
+
+
+@pattern(r'^<.* as Iterator>::(cloned|copied)$')
+def _(ex, a):
+    return Agg('MapIter', [a[0], PyFn(lambda ex, r: clone_value(ex, ex.deref(r)))])
+
+
+def _extreme(ex, items, want_max, keyf=None):
+    best = None
+    for it in items:
+        if best is None:
+            best = it
+            continue
+        x, y = (keyf(it), keyf(best)) if keyf else (it, best)
+        c = key_cmp(ex, x, y)
+        # std: max returns the last maximal element, min the first minimal one
+        if (c >= 0) if want_max else (c < 0):
+            best = it
+    return Some(best) if best is not None else NONE()
+
+
+@pattern(r'^<.* as Iterator>::max$')
+def _(ex, a):
+    return _extreme(ex, drain(ex, a[0]), True)
+
+
+@pattern(r'^<.* as Iterator>::min$')
+def _(ex, a):
+    return _extreme(ex, drain(ex, a[0]), False)
+
+
+@pattern(r'^<.* as Iterator>::max_by_key$')
+def _(ex, a):
+    return _extreme(ex, drain(ex, a[0]), True, lambda it: ex.call_closure(a[1], [Ref(Cell(it))]))
+
+
+@pattern(r'^<.* as Iterator>::min_by_key$')
+def _(ex, a):
+    return _extreme(ex, drain(ex, a[0]), False, lambda it: ex.call_closure(a[1], [Ref(Cell(it))]))
+
+
+@pattern(r'^<.* as Iterator>::sum$')
+def _(ex, a):
+    t = 0
+    for it in drain(ex, a[0]):
+        t = t + ex.deref_all(it)
+    return t
+
+
+@pattern(r'^<.* as Iterator>::(flat_map)$')
+def _(ex, a):
+    out = []
+    for it in drain(ex, a[0]):
+        out.extend(_items_of(ex, ex.call_closure(a[1], [it])))
+    return Agg('VecIntoIter', out)
+
+
+@pattern(r'^<.* as Iterator>::(flatten)$')
+def _(ex, a):
+    out = []
+    for it in drain(ex, a[0]):
+        if isinstance(it, Agg) and it.kind == 'Option':
+            if it.variant == 1:
+                out.append(it.f[0])
+        else:
+            out.extend(_items_of(ex, it))
+    return Agg('VecIntoIter', out)
+
+
+@prim('VecDeque::clear', 'BinaryHeap::clear')
+def _(ex, a):
+    v = ex.deref(a[0])
+    items = v.f[:]
+    del v.f[:]
+    for x in items:
+        ex.drop(x)
+    return UNIT()
+
+
+@prim('VecDeque::contains')
+def _(ex, a):
+    v = ex.deref(a[0])
+    for i in range(len(v.f)):
+        if value_eq(ex, elem_ref(a[0], i), a[1]):
+            return True
+    return False
+
+
+@prim('VecDeque::insert')
+def _(ex, a):
+    v = ex.deref(a[0])
+    i = _cidx(a[1])
+    if i > len(v.f):
+        raise RustPanic('index out of bounds')
+    v.f.insert(i, a[2])
+    return UNIT()
+
+
+@prim('VecDeque::remove')
+def _(ex, a):
+    v = ex.deref(a[0])
+    i = _cidx(a[1])
+    return Some(v.f.pop(i)) if i < len(v.f) else NONE()
+
+
+@prim('VecDeque::truncate')
+def _(ex, a):
+    return P['Vec::truncate'](ex, a)
+
+
+@prim('BinaryHeap::into_vec')
+def _(ex, a):
+    return Agg('Vec', list(a[0].f))
+
+
+def _retain(ex, cref, keep):
+    c = ex.deref(cref)
+    out = []
+    for ent in c.f[:]:
+        if as_bool(ex, keep(ent)):
+            out.append(ent)
+        else:
+            ex.drop(ent)
+    c.f[:] = out
+    return UNIT()
+
+
+@prim('HashSet::retain', 'AHashSet::retain')
+def _(ex, a):
+    return _retain(ex, a[0], lambda ent: ex.call_closure(a[1], [Ref(Cell(ent.f[0]))]))
+
+
+@prim('HashMap::retain', 'AHashMap::retain')
+def _(ex, a):
+    def keep(ent):
+        c = Cell(ent)
+        return ex.call_closure(a[1], [Ref(c, (('f', 0),)), Ref(c, (('f', 1),))])
+    return _retain(ex, a[0], keep)
+
+
+@prim('Weak::new')
+def _(ex, a):
+    return Agg('DeadWeak', [])
+
+
+@prim('Rc::get_mut', 'Arc::get_mut')
+def _(ex, a):
+    h = ex.deref(a[0])
+    if h.box.strong == 1 and h.box.weak == 1:
+        return Some(Ref(h.box.cell))
+    return NONE()
